@@ -5966,6 +5966,7 @@ func buildHistory(revs []revision) ([]byte, map[int]string, []int) {
 	}
 	prev := -1
 	size := 0
+	lastStm := 0
 	for ri, r := range revs {
 		type ent struct {
 			kind     int // 0 free, 1 in use, 2 compressed
@@ -6006,7 +6007,12 @@ func buildHistory(revs []revision) ([]byte, map[int]string, []int) {
 			}
 			data := hdr.String() + body.String()
 			off := b.Len()
-			fmt.Fprintf(&b, "%d 0 obj\n<< /Type /ObjStm /N %d /First %d /Length %d >>\nstream\n%s\nendstream\nendobj\n", stmNum, len(stmObjs), hdr.Len(), len(data), data)
+			extends := ""
+			if lastStm > 0 {
+				extends = fmt.Sprintf(" /Extends %d 0 R", lastStm) // an object stream of a later revision may name the one it extends
+			}
+			lastStm = stmNum
+			fmt.Fprintf(&b, "%d 0 obj\n<< /Type /ObjStm /N %d /First %d%s /Length %d >>\nstream\n%s\nendstream\nendobj\n", stmNum, len(stmObjs), hdr.Len(), extends, len(data), data)
 			ents = append(ents, ent{kind: 1, a: off, b2: 0, num: stmNum})
 		}
 		if ri == 0 {
